@@ -29,6 +29,8 @@ def exec_op(api, op, inv, results=None):
                 sub = [exec_op(a2, c, inv) for c in op.get('ch', [])]
                 if mode == 'rb':
                     raise UserError('rb')
+                if mode == 'w2':
+                    a2.write('W')       # the output is written in two steps (open is a scheduling point)
                 if mode != 'nc':
                     a2.write('W:' + op['p'])
                 if mode == 'ra':
@@ -110,14 +112,15 @@ class Runner:
         """Sequential phases after the first build: unchanged rebuild, clean."""
         sb = self.sb
         t1 = self.tree()
-        from .history import cache_duplicates
+        from .history import cache_duplicates, cache_comparison_mismatches
         snap = uni.snap(sb.R)
         dups = cache_duplicates(snap.get('c')) if first.get('build') == 'done' else []
+        cmps = cache_comparison_mismatches(snap, 'c', sb) if first.get('build') == 'done' else []
         inv = []
 
         def root(b):
             api = RealApi(self.ctx.fb, sb, b, None, None, root=True)
-            return [exec_op(api, op, inv) for op in all_ops(sc)]
+            return [exec_op(api, op, inv) for op in all_ops(sc) + list(sc.get('after', []))]
         try:
             r2 = self.FB.build(self.cache, BUILD, root)
         except Exception as e:
@@ -129,7 +132,7 @@ class Runner:
         except Exception as e:
             cl = 'EXC ' + type(e).__name__
         t3 = self.tree()
-        return {'first': first, 'tree': t1, 'cache_duplicates': dups, 'rebuild': r2, 'rebuild_inv': sorted(map(canon, inv)), 'tree2': t2,
+        return {'first': first, 'tree': t1, 'cache_duplicates': dups, 'cache_comparison_mismatches': [c[:2] for c in cmps], 'rebuild': r2, 'rebuild_inv': sorted(map(canon, inv)), 'tree2': t2,
                 'clean': cl, 'tree3': t3, 'tmp': self.sb.tmp_listing()}
 
     def tree(self):
